@@ -102,6 +102,50 @@ def skeleton(src):
                 last=last, rest=rest), None
 
 
+def skeleton_b(src):
+    """the mark-less plain form `(d,...,d, field,...,field, gap|^extent <rest>` (class B: Sony, Bryston, F32, ...)"""
+    s = ''.join(src.split())
+    m = HEAD.match(s)
+    if not m:
+        return None, 'general spec / bit spec not of the plain form'
+    f, u, o, s0, s1, body = m.groups()
+    sym0 = [dur(x) for x in s0.split(',')]
+    sym1 = [dur(x) for x in s1.split(',')]
+    if None in sym0 or None in sym1:
+        return None, 'bit spec symbols are not plain durations'
+    toks, rest = top_items(body)
+    if not toks or rest is None:
+        return None, 'stream not of the plain form'
+    lead, fields, k = [], [], 0
+    while k < len(toks) and dur(toks[k]) is not None and k < len(toks) - 1:
+        lead.append(dur(toks[k]))
+        k += 1
+    while k < len(toks) and FLD.match(toks[k]):
+        mm = FLD.match(toks[k])
+        fields.append(dict(pre=mm.group(1), width=int(mm.group(2)), post=mm.group(3) or ''))
+        k += 1
+    tail = toks[k:]
+    if not fields or len(tail) != 1:
+        return None, 'items are not <durations, bit fields, gap|extent>'
+    if dur(tail[0]) is not None:
+        last = ('gap', dur(tail[0]))
+    elif EXT.match(tail[0]):
+        e = EXT.match(tail[0])
+        last = ('extent', num(e.group(1)), {'': 'units', 'u': 'micro', 'm': 'milli'}[e.group(2)])
+    else:
+        return None, 'last item is neither a duration nor an extent'
+    return dict(freq=num(f), unit=num(u), order=o, sym0=sym0, sym1=sym1, lead=lead, fields=fields, last=last, rest=rest), None
+
+
+def lskel_b(sk):
+    last = ('.gap %s' % ldur(sk['last'][1])) if sk['last'][0] == 'gap' else '.extent %s .%s' % (lnum(sk['last'][1]), sk['last'][2])
+    return ('{ freq := %s, unit := %s, order := %s,\n    sym0 := [%s], sym1 := [%s],\n    lead := [%s],\n    fields := [%s],\n    last := %s,\n    rest := %s.toList }'
+            % (lnum(sk['freq']), lnum(sk['unit']), {None: 'none', 'msb': 'some .msb', 'lsb': 'some .lsb'}[sk['order']],
+               ', '.join(map(ldur, sk['sym0'])), ', '.join(map(ldur, sk['sym1'])), ', '.join(map(ldur, sk['lead'])),
+               ', '.join('⟨%s.toList, %d, %s.toList⟩' % (lstr(f['pre']), f['width'], lstr(f['post'])) for f in sk['fields']),
+               last, lstr(sk['rest'])))
+
+
 DITTO = re.compile(r'^,\(((?:-?\d+(?:\.\d+)?[um]?,)*)(-?\d+(?:\.\d+)?[um]?|\^\d+(?:\.\d+)?[um]?)\)([*+])\)')
 
 
@@ -151,7 +195,9 @@ def write(tabs, path=None, frag_override=None):
     irpA = frag_override if frag_override is not None else frag.get('irpA', [])
     irpD = frag_override if frag_override is not None else frag.get('irpDitto', [])
     classA = set(frag['classA'])
-    HEAD_ = ['import IRGen.Tables', 'import IRModel.Props.C02', 'import IRModel.Encode',
+    classB = set(frag.get('classB', []))
+    irpB = frag_override if frag_override is not None else frag.get('irpB', [])
+    HEAD_ = ['import IRGen.Tables', 'import IRModel.Props.C02', 'import IRModel.Props.C02B', 'import IRModel.Encode',
              '/-! GENERATED by tools/c02_gen.py from the `irp` attributes of /repo on every run. Do not edit. -/',
              'namespace IRGen.IrpObl', 'open IRModel IRModel.Irp IRModel.Props.C02', '']
     lines = []
@@ -161,6 +207,22 @@ def write(tabs, path=None, frag_override=None):
         n = t['name']
         sk, reason = skeleton(t.get('irp') or '')
         if sk is None:
+            skb, reason_b = skeleton_b(t.get('irp') or '')
+            if skb is not None and t['modelled'] and n in irpB:
+                ident = extract.lean_ident(n)[2:]
+                lines.append('def IB_%s : SkelB :=\n  %s' % (ident, lskel_b(skb)))
+                lines.append('def S_%s : String := %s' % (ident, lstr(t['irp'])))
+                lines.append("theorem irpB_print_%s : printB IB_%s = S_%s.toList.filter (· ≠ ' ') ∧ lexOkB IB_%s = true := by decide +kernel" % (ident, ident, ident, ident))
+                names.append('IRGen.IrpObl.irpB_print_' + ident)
+                if n in irpB and n in classB:
+                    lines.append('theorem irpB_agree_%s : agreeB IB_%s IRGen.%s = true := by decide +kernel' % (ident, ident, extract.lean_ident(n)))
+                    lines.append('theorem c02B_%s (hw : IRModel.Engine.wfAllB IRGen.%s ⟨20, 1⟩ = true) : FirstFrameSpecB IB_%s IRGen.%s :=\n  C02_first_frame_B IB_%s IRGen.%s ⟨20, 1⟩ hw irpB_agree_%s' % (ident, extract.lean_ident(n), ident, extract.lean_ident(n), ident, extract.lean_ident(n), ident))
+                    names.append('IRGen.IrpObl.irpB_agree_' + ident)
+                    names.append('IRGen.IrpObl.c02B_' + ident)
+                blocks.append(lines)
+                lines = []
+            elif n in irpB:
+                missing.append((n, 'no mark-less skeleton any more: ' + str(reason_b)))
             why[n] = reason
             if n in irpA:
                 missing.append((n, reason))
